@@ -149,3 +149,34 @@ func verifRoundTripChannelUpdateAccMsg(w0 io.Writer, r0 io.Reader, x ChannelUpda
 	decErr = y.Decode(r0)
 	return y, nil, decErr
 }
+
+func verifRoundTripChannelSyncMsg(w0 io.Writer, r0 io.Reader, x *ChannelSyncMsg) (y *ChannelSyncMsg, encErr, decErr error) {
+	encErr = x.Encode(w0)
+	if encErr != nil {
+		return nil, encErr, nil
+	}
+	verifLink(w0, r0)
+	y = new(ChannelSyncMsg)
+	decErr = y.Decode(r0)
+	return y, nil, decErr
+}
+
+func verifRoundTripVirtualChannelFundingProposalMsg(w0 io.Writer, r0 io.Reader, x VirtualChannelFundingProposalMsg) (y VirtualChannelFundingProposalMsg, encErr, decErr error) {
+	encErr = x.Encode(w0)
+	if encErr != nil {
+		return y, encErr, nil
+	}
+	verifLink(w0, r0)
+	decErr = y.Decode(r0)
+	return y, nil, decErr
+}
+
+func verifRoundTripVirtualChannelSettlementProposalMsg(w0 io.Writer, r0 io.Reader, x VirtualChannelSettlementProposalMsg) (y VirtualChannelSettlementProposalMsg, encErr, decErr error) {
+	encErr = x.Encode(w0)
+	if encErr != nil {
+		return y, encErr, nil
+	}
+	verifLink(w0, r0)
+	decErr = y.Decode(r0)
+	return y, nil, decErr
+}
